@@ -190,6 +190,13 @@ func shapeLean(s string) string {
 // the decision functions whose shape is a regenerated fact (skel_<name>)
 var skeletonFuncs = []string{"ServeHTTP", "handleCallback", "processAuthorizedRequest", "isUserAuthenticated", "refreshToken", "handleLogout", "defaultInitiateAuthentication", "handleExpiredToken", "sendErrorResponse", "determineScheme", "determineHost"}
 
+var cacheTextMethods = []string{"Set", "Get", "Delete", "Cleanup", "evictOldest", "removeItem"}
+
+var sessionTextFuncs = []string{"compressToken", "decompressToken", "deriveBlockKey", "NewSessionManager", "SessionManager.getSessionOptions", "SessionManager.GetSession",
+	"SessionManager.getTokenChunkSessions", "SessionData.Save", "SessionData.deleteStaleChunkCookies", "SessionData.Clear", "SessionData.clearTokenChunks",
+	"SessionData.GetAccessToken", "SessionData.SetAccessToken", "SessionData.GetRefreshToken", "SessionData.SetRefreshToken",
+	"SessionData.expireAccessTokenChunks", "SessionData.expireRefreshTokenChunks", "splitIntoChunks", "SessionData.GetAuthenticated", "SessionData.SetAuthenticated"}
+
 func main() {
 	if len(os.Args) != 5 {
 		fmt.Fprintln(os.Stderr, "usage: facts <repo> <out.lean> <out.json> <dict.json>")
@@ -248,6 +255,12 @@ func main() {
 	for _, fnName := range skeletonFuncs {
 		declare("skel_"+fnName, "List String", `["?"]`)
 	}
+	for _, m := range cacheTextMethods {
+		declare("text_Cache_"+m, "List String", `["?"]`)
+	}
+	for _, m := range sessionTextFuncs {
+		declare("text_"+strings.ReplaceAll(m, ".", "_"), "List String", `["?"]`)
+	}
 	declare("randomFromCryptoRand", "Bool", "false")
 	declare("nonceBytes", "Nat", "0")
 	declare("verifierBytes", "Nat", "0")
@@ -265,6 +278,8 @@ func main() {
 	type fn struct {
 		decl *ast.FuncDecl
 		file string
+		af   *ast.File
+		path string
 	}
 	funcs := map[string]fn{}
 	var parsed []*ast.File
@@ -289,7 +304,7 @@ func main() {
 				if fd.Recv != nil && len(fd.Recv.List) == 1 {
 					name = strings.TrimPrefix(src(fd.Recv.List[0].Type), "*") + "." + name
 				}
-				funcs[name] = fn{fd, filepath.Base(path)}
+				funcs[name] = fn{fd, filepath.Base(path), f, path}
 			}
 		}
 	}
@@ -1013,6 +1028,69 @@ func main() {
 		for _, fnName := range skeletonFuncs {
 			if f, ok := funcs["TraefikOidc."+fnName]; ok && f.decl.Body != nil {
 				set("skel_"+fnName, leanStrList(skel(f.decl.Body.List)), f.decl, "")
+			}
+		}
+		// cache.go: the whole text of the six methods the three-structure model `Oidc.CacheImpl` follows statement by statement
+		// (one string per top-level statement, whitespace-normalised, comments dropped by the printer)
+		// the text of one top-level statement as it stands in the file, without comments and without statements that only log
+		fileBytes := map[string][]byte{}
+		stmtText := func(f fn, st ast.Stmt) string {
+			b, ok := fileBytes[f.path]
+			if !ok {
+				b, _ = os.ReadFile(f.path)
+				fileBytes[f.path] = b
+			}
+			lo, hi := fset.Position(st.Pos()).Offset, fset.Position(st.End()).Offset
+			type rng struct{ a, b int }
+			var cut []rng
+			for _, cg := range f.af.Comments {
+				for _, c := range cg.List {
+					a, e := fset.Position(c.Pos()).Offset, fset.Position(c.End()).Offset
+					if a >= lo && e <= hi {
+						cut = append(cut, rng{a, e})
+					}
+				}
+			}
+			ast.Inspect(st, func(x ast.Node) bool {
+				if es, ok := x.(*ast.ExprStmt); ok {
+					if c, ok := es.X.(*ast.CallExpr); ok && strings.Contains(src(c.Fun), "logger.") {
+						cut = append(cut, rng{fset.Position(es.Pos()).Offset, fset.Position(es.End()).Offset})
+						return false
+					}
+				}
+				return true
+			})
+			sort.Slice(cut, func(i, j int) bool { return cut[i].a < cut[j].a })
+			var out []byte
+			p := lo
+			for _, c := range cut {
+				if c.a >= p {
+					out = append(out, b[p:c.a]...)
+					out = append(out, ' ')
+					p = c.b
+				}
+			}
+			out = append(out, b[p:hi]...)
+			return strings.Join(strings.Fields(string(out)), " ")
+		}
+		bodyText := func(f fn) []string {
+			var lines []string
+			for _, st := range f.decl.Body.List {
+				if t := stmtText(f, st); t != "" {
+					lines = append(lines, t)
+				}
+			}
+			return lines
+		}
+		for _, m := range cacheTextMethods {
+			if f, ok := funcs["Cache."+m]; ok && f.decl.Body != nil {
+				set("text_Cache_"+m, leanStrList(bodyText(f)), f.decl, "")
+			}
+		}
+		// session.go: likewise for the functions the session model (`Oidc.Session`, `Oidc.Codec`) follows
+		for _, m := range sessionTextFuncs {
+			if f, ok := funcs[m]; ok && f.decl.Body != nil {
+				set("text_"+strings.ReplaceAll(m, ".", "_"), leanStrList(bodyText(f)), f.decl, "")
 			}
 		}
 	}
